@@ -12,11 +12,16 @@ Desc(p, q) == [fa |-> Cur(p).fn, aa |-> Cur(p).acc, pa |-> path[p], fb |-> Cur(q
 
 MCInit == AInit /\ TLCSet(3, {})
 MCSpec == MCInit /\ [][ANext]_avars
+Symm == Permutations(Procs)
 
 \* state constraint used only for its side effect
 Collect == TLCSet(3, TLCGet(3) \cup {Desc(pq[1], pq[2]) : pq \in RacingNow})
 
-Report == PrintT(ToJson([racing |-> TLCGet(3)])) /\ TRUE
+\* every pair of code sites that touch a common location with at least one write (computed once, statically)
+AllSteps == UNION {{[fn |-> Path(n)[i].fn, acc |-> Path(n)[i].acc, locs |-> Path(n)[i].locs] : i \in 1..Len(Path(n))} : n \in PathNames}
+Conflicting == {<<a.fn, a.acc, b.fn, b.acc>> : <<a, b>> \in {ab \in AllSteps \X AllSteps : Conflict(ab[1], ab[2])}}
+
+Report == PrintT(ToJson([racing |-> TLCGet(3), conflicting |-> Conflicting])) /\ TRUE
 
 \* the step tables, one JSON line per path (evaluated once)
 DumpPaths == \A n \in AllPathNames :
